@@ -455,6 +455,9 @@ func main() {
 			rep.CaseInputs = append(rep.CaseInputs, h)
 		}
 		if fail != "" {
+			if os.Getenv("VERIF_DEBUG") != "" {
+				fmt.Fprintln(os.Stderr, "FAIL", fail, res.failInfo)
+			}
 			keep := vh.ShrinkIdx(len(h.Steps), func(keep []int) bool {
 				h2 := hist{Start: h.Start, Count: h.Count}
 				for _, i := range keep {
